@@ -361,6 +361,13 @@ def m_dict(I, args, kw):
 
 @model_for(builtins.sorted)
 def m_sorted(I, args, kw):
+    src = I.resolve_opt(args[0])
+    if isinstance(src, _pyvc().SList) and not isinstance(src.length, int):
+        rev = kw.get('reverse', False)
+        if not isinstance(rev, bool):
+            raise OutOfFragment("sorted() with a symbolic reverse flag")
+        return _pyvc().LTerm('sorted', src, {'key': kw.get('key'), 'reverse': rev}, src.name + ".sorted",
+                             src.length, src.elem_factory, src.taint)
     items = I.iterate_concrete(args[0])
     key = kw.get('key')
     rev = kw.get('reverse', False)
@@ -861,6 +868,9 @@ def native_method_call(I, name, recv, args, kw):
         raise OutOfFragment("bytearray.%s" % name)
     if isinstance(recv, SL):
         if name == 'append':
+            if getattr(recv, 'accumulator', False):
+                I.path.event('list.append', id(recv), args[0])
+                return None
             raise OutOfFragment("append to symbolic list")
         raise OutOfFragment("SList.%s" % name)
     if allconc:
